@@ -31,6 +31,7 @@ const (
 	VerifAccIncrLastKey      = verifAccIncrLastKey
 	VerifAccIncrLSN          = verifAccIncrLSN
 	VerifAccSetPageTableRoot = verifAccSetPageTableRoot
+	VerifAccReadHeader       = verifAccReadHeader
 
 	VerifWalWriteLen  = verifWalWriteLen
 	VerifWalWriteBody = verifWalWriteBody
